@@ -826,6 +826,25 @@ class ReadInput(Contract):
         return Sym(r, 'str')
 
 
+class IsInputInteractive(Contract):
+    """is_input_interactive(): interactive by default exactly when stdin is a
+    terminal (C14: '-i, or a terminal on stdin')"""
+    module = 'trashcli.empty.is_input_interactive'
+    qualname = 'is_input_interactive'
+
+    def setup(self, V):
+        V.ctx.ghost['isatty_calls'] = []
+        return {}
+
+    def post(self, V, a, out):
+        calls = V.ctx.ghost.get('isatty_calls', [])
+        stdin = [r for fd, r in calls if fd == 0]
+        if len(stdin) != 1:
+            return [('consults-stdin', z3.BoolVal(False))]
+        return [('interactive-iff-stdin-is-a-terminal',
+                 T(out[1]) == T(stdin[0]))]
+
+
 class DoEmptyProbe(Contract):
     module = 'trashcli.empty.emptier'
     qualname = 'Emptier.do_empty'
@@ -925,6 +944,7 @@ def leaf_vcs(S):
     S.verify(ParsePath())
     S.verify(FilterMatches())
     S.verify(ParseReply())
+    S.verify(IsInputInteractive())
     S.verify(dates.OlderThan())
     S.verify(dates.ParseDeletionDate())
     S.verify(dates.MaybeParseDeletionDate())
